@@ -529,9 +529,21 @@ func judge(ctx *core.Ctx, c *Case, o *Obs) {
 		judgeAccept(ctx, c, o)
 	case "dialtl":
 		judgeLattice(ctx, c, o)
+	case "certname":
+		judgeCertName(ctx, c, o)
 	default:
 		judgeFault(ctx, c, o)
 	}
+}
+
+// rigDidNotPerform: a case whose script the rig itself could not carry out (a scripted peer that could not get
+// its bytes out before the end it was to produce: Obs.Rig) says nothing about the proxy; it is counted, not judged.
+func rigDidNotPerform(ctx *core.Ctx, o *Obs) bool {
+	if o.Rig == "" {
+		return false
+	}
+	ctx.Count("inconclusive/rig-did-not-perform-its-script/" + strings.SplitN(o.Rig, ":", 2)[0])
+	return true
 }
 
 func judgeFault(ctx *core.Ctx, c *Case, o *Obs) {
@@ -571,6 +583,9 @@ func judgeFault(ctx *core.Ctx, c *Case, o *Obs) {
 	}
 	if o.Setup != "" {
 		ctx.SpecFail(clauseServing, "", c, impl, "the client could not reach the point of sending its request: "+o.Setup)
+		return
+	}
+	if rigDidNotPerform(ctx, o) {
 		return
 	}
 	method := "GET"
